@@ -27,13 +27,20 @@ static struct snapraid_file F;
 static struct snapraid_extent *g_inserted[2], *g_removed[2];
 static unsigned g_ins_calls, g_rem_calls;
 static block_off_t g_find_arg;
+#ifndef HAVE_PREV
+#define HAVE_PREV 1 /* concrete per obligation: does an extent exist for file_pos - 1 (a symbolic pointer result makes cbmc's byte-update encoding explode) */
+#endif
 
 static struct snapraid_extent *fs_par2extent_get_unlock(struct snapraid_disk *disk, struct snapraid_extent **fs_last, block_off_t parity_pos)
 __CPROVER_ensures(__CPROVER_return_value == &E && g_find_arg == parity_pos)
 __CPROVER_assigns(g_find_arg);
 
 static struct snapraid_extent *fs_file2extent_get_unlock(struct snapraid_disk *disk, struct snapraid_extent **fs_last, struct snapraid_file *file, block_off_t file_pos)
-__CPROVER_ensures(__CPROVER_return_value == (IN.have_prev ? &E : (struct snapraid_extent *)0) && g_find_arg == file_pos)
+#if HAVE_PREV
+__CPROVER_ensures(__CPROVER_return_value == &E && g_find_arg == file_pos)
+#else
+__CPROVER_ensures(__CPROVER_return_value == (struct snapraid_extent *)0 && g_find_arg == file_pos)
+#endif
 __CPROVER_assigns(g_find_arg);
 
 void *tommy_tree_insert(tommy_tree *tree, tommy_tree_node *node, void *data)
@@ -141,6 +148,7 @@ void h_fs_allocate(void)
 	if (IN.have_prev)
 		VERIF_ASSUME(IN.fpos >= 1 && IN.fpos - 1 >= IN.fp && IN.fpos - 1 - IN.fp < IN.n);
 	disk.fs_mutex_enabled = 0;
+	VERIF_ASSUME((IN.have_prev != 0) == HAVE_PREV);
 	g_ins_calls = g_rem_calls = g_alloc_calls = 0;
 	g_alloc = 0;
 	g_inserted[0] = g_inserted[1] = 0;
